@@ -1,3 +1,47 @@
-import TddaVerif.Py.Text
+/-
+C13 — every expression rexpy returns matches at least one example; never more expressions than
+distinct examples; none for an empty input; pruning only deletes; expressions are anchored.
+(Validity of the rendered text as a Python regular expression is decided by re.compile in the
+oracle; tag invariance holds by construction: tagging is not part of the pattern AST, only of its
+rendering.)  Proofs in Lemmas/RexpySound.lean and Lemmas/RexpyInvariance.lean.
+-/
+import TddaVerif.Model.Rexpy
+import TddaVerif.Model.RexpyRender
+import TddaVerif.Props.C03Spec
+import TddaVerif.Lemmas.RexpySound
+import TddaVerif.Lemmas.RexpyInvariance
+
 namespace TddaVerif.Props.C13
+open TddaVerif.Py TddaVerif.Rexpy TddaVerif.Props.C03
+
+/-- every pattern of a batch extraction matches at least one of the (cleaned) examples -/
+theorem each_pattern_has_witness (T : CharTable) (hT : Consistent T) (o : Opts)
+    (hsz : 1 ≤ o.sizes.maxStringsInGroup) (cl : Cleaned) (ps : List Pattern) (E : List Char)
+    (h : batchExtract T o cl = some (ps, E)) :
+    ∀ p ∈ ps, ∃ s ∈ cl.strings, Matches T E (wrapWs (decide (cl.nStripped > 0)) p) s :=
+  C03.Lemmas.batch_pattern_has_witness T hT o hsz cl ps E h
+
+/-- there are never more patterns than distinct examples -/
+theorem count_le_distinct (T : CharTable) (o : Opts) (cl : Cleaned) (ps : List Pattern) (E : List Char)
+    (h : batchExtract T o cl = some (ps, E)) : ps.length ≤ cl.strings.eraseDups.length :=
+  C03.Lemmas.batch_count_le T o cl ps E h
+
+/-- an input with no example left after cleaning gives no expression -/
+theorem none_for_empty (T : CharTable) (o : Opts) (items : List (Option Line × Nat))
+    (h : (clean o.stripOpt o.removeEmpties items).strings = []) : extract T o items = some ([], [], false) :=
+  C03.Lemmas.extract_empty T o items h
+
+/-- max_patterns / min_strings_per_pattern only delete patterns -/
+theorem pruning_subset (T : CharTable) (o : Opts) (items : List (Option Line × Nat))
+    (ps : List Pattern) (E : List Char) (w : Bool) (h : extract T o items = some (ps, E, w))
+    (hne : (clean o.stripOpt o.removeEmpties items).strings ≠ []) :
+    ∃ qs, batchExtract T o (clean o.stripOpt o.removeEmpties items) = some (qs, E) ∧ ∀ p ∈ ps, p ∈ qs :=
+  C03.Lemmas.extract_subset_batch T o items ps E w h hne
+
+/-- every rendered expression starts with `^` and ends with `$` -/
+theorem anchored (E : List Char) (dialect : Nat) (tagged wsWrap : Bool) (p : Pattern) :
+    (patternText E dialect tagged wsWrap p).head? = some '^' ∧
+    (patternText E dialect tagged wsWrap p).getLast? = some '$' :=
+  C14.Lemmas.patternText_anchored E dialect tagged wsWrap p
+
 end TddaVerif.Props.C13
